@@ -54,8 +54,8 @@ Header == FlatS([i \in 1..Len(UserTys) |-> TypeDecl(UserTys[i]) \o ShowDecl(User
 
 \* ------------------------------------------------------------- tier parameters
 Prof == IF Thorough
-        THEN [int |-> <<"0", "1", "01">>, float |-> <<"1.0", "1.00", "2.5">>, string |-> <<"a", "b", "\\x61">>, leafors |-> TRUE]
-        ELSE [int |-> <<"0", "1">>, float |-> <<"1.0", "1.00", "2.5">>, string |-> <<"a", "b">>, leafors |-> TRUE]
+        THEN [int |-> <<"0", "1", "01">>, float |-> <<"1.0", "1.00", "2.5", "2.51">>, string |-> <<"a", "b", "\\x61">>, leafors |-> TRUE]
+        ELSE [int |-> <<"0", "1">>, float |-> <<"1.0", "1.00", "2.5", "2.51">>, string |-> <<"a", "b">>, leafors |-> TRUE]
 Depth == IF Thorough THEN 2 ELSE 1
 MaxBase == IF Thorough THEN 6 ELSE 4       \* top-level or-patterns for types with at most this many binder-free base patterns
 Cap2 == IF Thorough THEN 4000 ELSE 800
@@ -135,10 +135,14 @@ RandBatch(b) == [j \in 1..K |-> RandList(b * K + j - 1)]
 ArmsTxt(ty, arms) == [i \in 1..Len(arms) |-> PatTxt(ty, arms[i], 0).s]
 ArmBody(g, i, n) == "\"" \o ToString(g) \o ":" \o ToString(i) \o "\"" \o
                     JoinS([j \in 1..n |-> " .. \":\" .. x" \o ToString(j)], "")
-MatchFn(L) == LET ty == TyU[L.ti].ty IN
-  << "fn m" \o ToString(L.g) \o "(s: " \o TyExpr(ty) \o ") -> string {", "  match s {" >> \o
+\* where the match stands (same line layout in every placement): on its own, as the body of an arm of another match, or as
+\* a branch of an if-else; the verdict on the match does not depend on it
+Placement(L) == L.g % 3
+MatchFn(L) == LET ty == TyU[L.ti].ty  pl == Placement(L) IN
+  << "fn m" \o ToString(L.g) \o "(s: " \o TyExpr(ty) \o ") -> string {",
+     CASE pl = 0 -> "  match s {" [] pl = 1 -> "  match true { _ -> match s {" [] pl = 2 -> "  if true { match s {" >> \o
   [i \in 1..Len(L.arms) |-> LET r == PatTxt(ty, L.arms[i], 0) IN "    " \o r.s \o " -> " \o ArmBody(L.g, i, r.n)] \o
-  << "  }", "}" >>
+  << CASE pl = 0 -> "  }" [] pl = 1 -> "  } }" [] pl = 2 -> "  } } else { \"\" }", "}" >>
 \* the admissible lines printed by  println(m<g>(v))
 CallOf(L, v) ==
   LET ty == TyU[L.ti].ty
